@@ -44,7 +44,7 @@ Fixpoint inputs_go (events : list (N * handle)) (hist : list rx) : list (N * inp
         fold_left (fun acc m => let '(i, h') := message_inputs a mc m (snd acc) in (fst acc ++ i, h'))
                   (fst (datagram_split data)) ([], hist) in
       map (fun i => (t, i)) ins ++ inputs_go r hist'
-  | (t, HApi c) :: r => (t, IApi c) :: inputs_go r hist
+  | (t, HApi c) :: r => (t, IApi (api_strip c)) :: inputs_go r hist
   | _ :: r => inputs_go r hist
   end.
 Definition inputs_of (sc : scenario) : list (N * input) := inputs_go (sc_events sc) [].
